@@ -7,6 +7,7 @@
 export PATH=/opt/veriftools/go1.26.8/bin:$PATH GOTOOLCHAIN=local GOFLAGS=-mod=mod GOPROXY=off GOSUMDB=off
 V="$(cd "$(dirname "$0")/.." && pwd)"
 export VERIF_ROOT="$V"
+export VERIF_PREFER_MIRROR=1
 [ -x "$V/bin/govc" ] || (cd "$V/govc" && go build -o ../bin/govc .) || exit 2
 fail=0; n=0
 for d in "$V"/selftest/*/ "$V"/seeded/*/; do
